@@ -201,6 +201,16 @@ def check_c10(tier, replay):
                               mc_cfgs="frame", extra_stage=c10_stage)
 
 
+def c19_stage(v, scr, th):
+    import checks_list
+    checks_list.sess_routing_stage(v, scr, "C19", ["C19_HandlerOnlyOwnConversation", "C19_OOBLeavesStateAlone"], th)
+
+
+def c06_stage(v, scr, th):
+    import checks_list
+    checks_list.sess_routing_stage(v, scr, "C06", ["C06_IntegrityGuard"], th)
+
+
 def check_c19(tier, replay):
     inv = ["C19_IntactOrAbsent", "C19_RefusalRule", "C19_OOBFrame", "C09_FecSequence", "C09_FecTypeMatchesPosition", "C09_FecIdInRange", "C01_ReadIsNextBytes",
            "C02_TransferCompletes", "C10_LenWithinMtu"]
@@ -208,8 +218,11 @@ def check_c19(tier, replay):
                               dict(SESS_RUNS=200, SESS_OOB=1), dict(SESS_RUNS=2500, SESS_OOB=1),
                               RULE_TRANSFER + "; OOB payloads of length 0, 1, 100, max, max+1 and random interleaved with Write traffic in both "
                               "directions, handlers on both sides; every handler invocation must equal a message sent by the peer of that "
-                              "session; refusal exactly for oversize / no FEC; the FEC id sequence on the wire must be unaffected",
-                              SESS_ASSUME, mc_cfgs="frame")
+                              "session; refusal exactly for oversize / no FEC; the FEC id sequence on the wire must be unaffected; after the "
+                              "transfer well-formed out-of-band datagrams of OTHER conversations between the same two addresses arrive at the "
+                              "dialled session and must not reach its handler; crafted datagrams of every class at a dialled session, three "
+                              "cipher kinds: the handler runs exactly for own-conversation messages with valid integrity (SessionRouteTrace)",
+                              SESS_ASSUME, mc_cfgs="frame", extra_stage=c19_stage)
 
 
 def check_c15(tier, replay):
@@ -234,8 +247,10 @@ def check_c06(tier, replay):
                               "changed, and it is re-encrypted; too-short datagrams -- into the listener (from the session's peer and from an "
                               "unknown address) and into the dialled session; deep digests (protocol state, FEC decoder incl. the auto-tune "
                               "sample ring, stream carry-over, wake-up tokens, session table, accept backlog) before and after must be equal "
-                              "and InCsumErrors must change by exactly 1 (0 for too-short). Non-trivial = every injected corruption",
-                              SESS_ASSUME, mc_cfgs="frame")
+                              "and InCsumErrors must change by exactly 1 (0 for too-short); crafted datagrams of every class at a dialled "
+                              "session: a failing / missing integrity field leads only to the two drop exits, no handler, unchanged digest "
+                              "(SessionRouteTrace). Non-trivial = every injected corruption",
+                              SESS_ASSUME, mc_cfgs="frame", extra_stage=c06_stage)
 
 
 def c05_stage(v, scr, th):
